@@ -24,7 +24,7 @@ Python anchors: ethernet.py:100-176, vlan.py:63-103, arp.py:80-125, ipv4.py:92-1
 (tcp_opt), tcp.py:580-728 (tcp), icmp.py:103-324, packet_base.py:192-209 (`pack`).
 -/
 namespace Pox.Packet
-open Pox Pox.Layout Pox.Checksum
+open Pox Pox.PktLayout Pox.Checksum
 
 inductive Err where
   | struct                     -- struct.error (value out of range for its field)
